@@ -44,7 +44,7 @@ def run(chk):
                 'output. A case is a source string.')
     S.standard(chk, scopes(quick), INV, CLAUSES,
                'output must consist of the input characters in order; only whitespace before { or [ may vanish',
-               extra_sources=extras(chk, quick), runs='', sources=twin_documents(chk))
+               extra_sources=extras(chk, quick), runs='', sources=twin_documents(chk), simulate_words=[w for w in S.ST + NOIGN])
     chk.assumptions += ['side condition "mandatory arguments of \\def \\textbf \\section \\label are brace-delimited" is '
                         'decided by the reference machine: no re-bracing step fires on the source',
                         'NUL/DEL-free sources only']
